@@ -186,8 +186,12 @@ func (n *Node) clone() *Node {
 		_type:    n._type,
 		data:     n.data,
 		borders:  n.borders,
-		value:    n.value,
 		dirty:    n.dirty,
+	}
+	if !n.isContainer() {
+		if value := n.value.Load(); value != nil {
+			node.value.Store(value)
+		}
 	}
 	for key, value := range n.children {
 		clone := value.clone()
